@@ -71,6 +71,7 @@ def frameSetObs (fs : FrameSet) (qi qv : List Int) : Obs :=
     ("fin", toString fs.fin),
     ("min", if small then toString (Spec.listMin fr) else "big"),
     ("max", if small then toString (Spec.listMax fr) else "big"),
+    ("own", "1"),
     ("iter", if small then summarize fr else "big"),
     ("val", ",".intercalate (qi.map fun i => showExcept toString (fs.frame i))),
     ("idx", showInts (qv.map fs.index)),
@@ -119,7 +120,7 @@ def dispatchRanges : List String → Option (Obs × Option Obs)
       | none => none
       | some cs =>
         if cs.all Spec.Comp.ok then
-          some ([("err", "ok")] ++ obsList (Spec.denote cs) qi qv)
+          some ([("err", "ok"), ("own", "1")] ++ obsList (Spec.denote cs) qi qv)
         else some [("err", Err.zeroStep.toString)]
     some (m, sp)
   | _ => none
